@@ -27,7 +27,7 @@ static Verdict run(const Json::Value& sc) {
   bool sawSignal = false;
   for (auto& inv : invs) {
     if (inv.rs >= (int)rulesets.size() || inv.tick < 0 || inv.tick >= (int)R.worlds.size()) continue;
-    const Json::Value& args = rulesets[inv.rs]["actions"][0]["args"];
+    const Json::Value& args = killActionOf(rulesets[inv.rs])["args"];
     const World& w = R.worlds[inv.tick];
     bool recursive = args.get("recursive", "false").asString() == "true";
     bool dry = args.get("dry", "false").asString() == "true";
